@@ -148,7 +148,7 @@ static __thread int in_hook;
 /* H hook: the arena of err_ht that the armed thread's record pointer points into. When libyang frees it, it is zeroed and
  * kept (never given back to the allocator) instead: a later dereference of the dangling pointer then deterministically
  * reads rec->err == NULL, i.e. the thread's errors are gone, instead of whatever the allocator left there */
-static void *volatile q_target;
+static void *q_target;
 static size_t q_size;
 static long q_hits;
 
@@ -157,9 +157,9 @@ void __real_free(void *p);
 void
 __wrap_free(void *p)
 {
-    if (p && (p == q_target)) {
+    if (p && (p == __atomic_load_n(&q_target, __ATOMIC_ACQUIRE))) {
         memset(p, 0, q_size);
-        q_target = NULL;
+        __atomic_store_n(&q_target, NULL, __ATOMIC_RELEASE);
         __atomic_add_fetch(&q_hits, 1, __ATOMIC_RELAXED);
         return;
     }
@@ -225,7 +225,7 @@ __wrap_pthread_mutex_unlock(pthread_mutex_t *m)
     if (hook) {
         arena = ctx->err_ht->recs;      /* still under the lock */
         q_size = (size_t)ctx->err_ht->size * ctx->err_ht->rec_size;
-        q_target = arena;
+        __atomic_store_n(&q_target, arena, __ATOMIC_RELEASE);
     }
     r = __real_pthread_mutex_unlock(m);
 
@@ -241,7 +241,7 @@ __wrap_pthread_mutex_unlock(pthread_mutex_t *m)
         if (ctx->err_ht->recs != arena) {
             __atomic_add_fetch(&dangling, 1, __ATOMIC_RELAXED);
         }
-        q_target = NULL;
+        __atomic_store_n(&q_target, NULL, __ATOMIC_RELEASE);
         __real_pthread_mutex_unlock(&ctx->lyb_hash_lock);
         in_hook = 0;
     }
